@@ -204,11 +204,10 @@ class ChannelItem(EFLRItem, DimensionedItem):
 
         self._check_axis_vs_dimension()
 
-        if not self.long_name.value or self.long_name.value is self.__dict__.get('_default_long_name'):
+        if not self.long_name.value or 'value' in self.long_name._derived_parts:
             # (also re-derive a long name defaulted at an earlier write - the channel may have been renamed since)
             logger.debug(f"Long name of channel '{self.name}' not specified; setting it to to the channel's name")
-            self.long_name.value = self.name
-            self._default_long_name = self.long_name.value
+            self.long_name.set_derived('value', self.name)
 
 
 class ChannelSet(EFLRSet):
